@@ -417,7 +417,7 @@ impl Image {
 // ------------------------------------------------------------------------------------------
 // spec syntax
 
-fn words_hex(ws: &[i32]) -> String {
+pub fn words_hex(ws: &[i32]) -> String {
     let mut b = vec![];
     for w in ws {
         b.extend_from_slice(&w.to_le_bytes());
@@ -425,21 +425,21 @@ fn words_hex(ws: &[i32]) -> String {
     to_hex(&b)
 }
 
-fn items_str(items: &[Item]) -> String {
+pub fn items_str(items: &[Item]) -> String {
     if items.is_empty() {
         return "_".to_string();
     }
     items.iter().map(|it| format!("{}.{}.{}", it.type_id, it.id, words_hex(&it.data))).collect::<Vec<_>>().join(",")
 }
 
-fn datas_str(datas: &[Vec<u8>]) -> String {
+pub fn datas_str(datas: &[Vec<u8>]) -> String {
     if datas.is_empty() {
         return "_".to_string();
     }
     datas.iter().map(|d| to_hex(d)).collect::<Vec<_>>().join(",")
 }
 
-fn parse_items(s: &str) -> Option<Vec<Item>> {
+pub fn parse_items(s: &str) -> Option<Vec<Item>> {
     if s == "_" {
         return Some(vec![]);
     }
@@ -459,7 +459,7 @@ fn parse_items(s: &str) -> Option<Vec<Item>> {
         .collect()
 }
 
-fn parse_datas(s: &str) -> Option<Vec<Vec<u8>>> {
+pub fn parse_datas(s: &str) -> Option<Vec<Vec<u8>>> {
     if s == "_" {
         return Some(vec![]);
     }
@@ -467,7 +467,7 @@ fn parse_datas(s: &str) -> Option<Vec<Vec<u8>>> {
 }
 
 /// is the item list something a reader has to accept: type ids strictly ascending by group
-fn well_formed(items: &[Item]) -> bool {
+pub fn well_formed(items: &[Item]) -> bool {
     items.windows(2).all(|w| w[0].type_id <= w[1].type_id)
 }
 
@@ -736,6 +736,43 @@ impl Runner for R {
                 (Some(bs), Some(items), Some(datas)) => open(&bs, o, Some((&items, &datas))),
                 _ => "bad-op".to_string(),
             },
+            ["hsweep", fix, k1, k2, vals, h] => {
+                let vals: Option<Vec<i32>> = vals.split(',').map(|v| v.parse().ok()).collect();
+                match (k1.parse::<usize>(), k2.parse::<usize>(), vals, parse_hex(h)) {
+                    (Ok(k1), Ok(k2), Some(vals), Some(bs)) if k1 < 8 && k2 < 8 => {
+                        let set = |b: &mut Vec<u8>, k: usize, v: i32| {
+                            if b.len() >= 36 {
+                                b[4 + 4 * k..8 + 4 * k].copy_from_slice(&v.to_le_bytes());
+                            }
+                        };
+                        let word = |b: &[u8], k: usize| -> i64 {
+                            if b.len() >= 36 {
+                                i32::from_le_bytes([b[4 + 4 * k], b[5 + 4 * k], b[6 + 4 * k], b[7 + 4 * k]]) as i64
+                            } else {
+                                0
+                            }
+                        };
+                        let mut h = FNV_OFFSET;
+                        for &v1 in &vals {
+                            for &v2 in &vals {
+                                let mut m = bs.clone();
+                                set(&mut m, k1, v1);
+                                set(&mut m, k2, v2);
+                                if *fix == "1" {
+                                    let total = 36 + 12 * word(&m, 3) + 4 * word(&m, 4) + 4 * word(&m, 5) + if word(&m, 0) >= 4 { 4 * word(&m, 5) } else { 0 } + word(&m, 6) + word(&m, 7);
+                                    let sd = word(&m, 7);
+                                    set(&mut m, 1, (total - 16) as i32);
+                                    set(&mut m, 2, (total - 16 - sd) as i32);
+                                }
+                                h = fnv_byte(fnv_bytes(h, open(&m, o, None).as_bytes()), 0xff);
+                            }
+                        }
+                        o.add("header_pairs_swept", (vals.len() * vals.len()) as u64);
+                        format!("h {}", h)
+                    }
+                    _ => "bad-op".to_string(),
+                }
+            }
             ["sweep", h] => match parse_hex(h) {
                 Some(bs) => sweep(&bs, o),
                 None => "bad-op".to_string(),
@@ -772,7 +809,7 @@ impl Runner for R {
 // ------------------------------------------------------------------------------------------
 // generator
 
-fn rand_items(rng: &mut Rng, max_items: u64, max_words: u64) -> Vec<Item> {
+pub fn rand_items(rng: &mut Rng, max_items: u64, max_words: u64) -> Vec<Item> {
     let n = rng.below(max_items + 1);
     let ntypes = 1 + rng.below(4);
     let pool: Vec<u16> = (0..ntypes)
@@ -824,7 +861,7 @@ fn rand_block(rng: &mut Rng, max: u64) -> Vec<u8> {
     }
 }
 
-fn rand_datas(rng: &mut Rng, max_blocks: u64, max_len: u64) -> Vec<Vec<u8>> {
+pub fn rand_datas(rng: &mut Rng, max_blocks: u64, max_len: u64) -> Vec<Vec<u8>> {
     (0..rng.below(max_blocks + 1)).map(|_| rand_block(rng, max_len)).collect()
 }
 
@@ -1164,6 +1201,28 @@ impl Domain for D {
 
         // 7. the zlib stand-in of the driver against zlib
         gen_inflate_cases(out, &mut rng, n_infl, if thorough { 3000 } else { 120 });
+
+        // 7b. exhaustive: every pair of header words x every pair of boundary values (hash form),
+        //     raw and with size/swaplen recomputed
+        for (img, _, _) in bases.iter().take(if thorough { 4 } else { 1 }) {
+            let mut vals: Vec<i32> = if thorough {
+                vec![0, 1, -1, 2, 3, 4, 5, 7, 8, 12, 16, 36, 48, 0x10000, 0xffff, i32::MIN, i32::MIN + 1, i32::MAX, i32::MAX - 3, i32::MAX - 35, 0x20000000, 0x15555555, 0x0aaaaaaa, 0x7ffffff0]
+            } else {
+                vec![0, 1, -1, 3, 4, 8, i32::MIN, i32::MAX, i32::MAX - 3, 0x20000000]
+            };
+            vals.extend_from_slice(&img.header_words());
+            vals.sort();
+            vals.dedup();
+            let vs = vals.iter().map(|v| v.to_string()).collect::<Vec<_>>().join(",");
+            let hex = to_hex(&img.serialize());
+            for k1 in 0..8 {
+                for k2 in (k1 + 1)..8 {
+                    for fix in [0, 1] {
+                        emit(out, format!("hsweep {} {} {} {} {}", fix, k1, k2, vs, hex));
+                    }
+                }
+            }
+        }
 
         // 8. all 65536 type ids
         for (img, _, _) in bases.iter().take(if thorough { 10 } else { 1 }) {
